@@ -76,41 +76,39 @@ theorem coll_ext {h h' : Heap} (wf : WF h) (ext : Ext h h') {c : Nat} (ty : Type
     obs h' c = obs h c ∧ reads h' c = reads h c ∧ owned h' c = owned h c ∧ Typed h' c :=
   collFP.ext wf ext ty
 
-theorem mkWeaAt_fresh {h0 h2 : Heap} {d f : Nat} (ext02 : Ext h0 h2)
-    (inv : Inv collFP h2 [d, f])
-    (own : ∀ mb ∈ [d, f], ∀ r ∈ owned h2 mb, h0.next ≤ r)
-    (rd : ∀ mb ∈ [d, f], ∀ r ∈ reads h2 mb, h0.next ≤ r ∨ Shareable h0 r)
-    (tags : List Nat) (md : List (Nat × OV)) (pl : Heap × Nat)
-    (Lext : Ext h2 pl.1) (Lwf : WF pl.1) (lt : List MV) (Lget : pl.1.cells pl.2 = some (.loc lt))
-    (Lnew : h0.next ≤ pl.2 ∨ Shareable h0 pl.2) :
-    Fresh anyFP h0 (mkWeaAt pl tags md d f).1 (mkWeaAt pl tags md d f).2 := by
+/-- A composite assembled around fresh, separated collections is a fresh object. -/
+theorem mkComp_fresh {h0 h2 : Heap} {members : List Nat} (ext02 : Ext h0 h2)
+    (inv : Inv collFP h2 members)
+    (own : ∀ mb ∈ members, ∀ r ∈ owned h2 mb, h0.next ≤ r)
+    (rd : ∀ mb ∈ members, ∀ r ∈ reads h2 mb, h0.next ≤ r ∨ Shareable h0 r)
+    (kind : Nat) (tags : List Nat) (md : List (Nat × OV)) (shared : List Nat)
+    (hsh : ∀ s ∈ shared, (∃ t, h2.cells s = some (.loc t)) ∧ (h0.next ≤ s ∨ Shareable h0 s)) :
+    Fresh anyFP h0 (mkComp h2 kind tags shared md members).1 (mkComp h2 kind tags shared md members).2 := by
   obtain ⟨wf2, ty2, sep2⟩ := inv
-  simp only [mkWeaAt]
-  have M := allocMeta_new_spec Lwf md
+  simp only [mkComp]
+  have M := allocMeta_new_spec wf2 md
   obtain ⟨Mext, Mwf, Mge, mm, Mget, Mn⟩ := M
-  have C := alloc_ext (allocMeta pl.1 (.new md)).1
-    (.comp ⟨0, tags, (allocMeta pl.1 (.new md)).2, [pl.2], [d, f]⟩)
-  have Cwf := alloc_wf Mwf (.comp ⟨0, tags, (allocMeta pl.1 (.new md)).2, [pl.2], [d, f]⟩)
-  have Cget := alloc_get (allocMeta pl.1 (.new md)).1
-    (.comp ⟨0, tags, (allocMeta pl.1 (.new md)).2, [pl.2], [d, f]⟩)
-  have e2f := (Lext.trans Mext).trans C
+  have C := alloc_ext (allocMeta h2 (.new md)).1
+    (.comp ⟨kind, tags, (allocMeta h2 (.new md)).2, shared, members⟩)
+  have Cwf := alloc_wf Mwf (.comp ⟨kind, tags, (allocMeta h2 (.new md)).2, shared, members⟩)
+  have Cget := alloc_get (allocMeta h2 (.new md)).1
+    (.comp ⟨kind, tags, (allocMeta h2 (.new md)).2, shared, members⟩)
+  have e2f := Mext.trans C
   have n02 : h0.next ≤ h2.next := ext02.1
-  have n2l : h2.next ≤ pl.1.next := Lext.1
-  have nlm : pl.1.next ≤ (allocMeta pl.1 (.new md)).1.next := Mext.1
+  have nlm : h2.next ≤ (allocMeta h2 (.new md)).1.next := Mext.1
   -- members in the final heap
-  have mem := fun mb (hmb : mb ∈ [d, f]) => coll_ext wf2 e2f (ty2 mb hmb)
+  have mem := fun mb (hmb : mb ∈ members) => coll_ext wf2 e2f (ty2 mb hmb)
   have c_md := ext_cell Mwf C Mget
-  have c_loc := ext_cell Lwf (Mext.trans C) Lget
-  have mra : mdRefsAt ((allocMeta pl.1 (.new md)).1.alloc
-      (.comp ⟨0, tags, (allocMeta pl.1 (.new md)).2, [pl.2], [d, f]⟩)).1 (allocMeta pl.1 (.new md)).2
+  have mra : mdRefsAt ((allocMeta h2 (.new md)).1.alloc
+      (.comp ⟨kind, tags, (allocMeta h2 (.new md)).2, shared, members⟩)).1 (allocMeta h2 (.new md)).2
       = mdRefs mm := by simp [mdRefsAt, c_md]
-  have rlt : ∀ mb ∈ [d, f], ∀ r ∈ reads h2 mb, r < h2.next := fun mb hmb => reads_lt wf2 (ty2 mb hmb)
-  have cty : CompTyped ((allocMeta pl.1 (.new md)).1.alloc
-      (.comp ⟨0, tags, (allocMeta pl.1 (.new md)).2, [pl.2], [d, f]⟩)).1
-      ⟨0, tags, (allocMeta pl.1 (.new md)).2, [pl.2], [d, f]⟩ := by
+  have rlt : ∀ mb ∈ members, ∀ r ∈ reads h2 mb, r < h2.next := fun mb hmb => reads_lt wf2 (ty2 mb hmb)
+  have cty : CompTyped ((allocMeta h2 (.new md)).1.alloc
+      (.comp ⟨kind, tags, (allocMeta h2 (.new md)).2, shared, members⟩)).1
+      ⟨kind, tags, (allocMeta h2 (.new md)).2, shared, members⟩ := by
     refine ⟨⟨mm, c_md, fun r hr => ?_⟩, fun s hs => ?_, fun mb hmb => (mem mb hmb).2.2.2, ?_, fun mb hmb => ?_⟩
     · obtain ⟨_, l, hl⟩ := Mn r hr; exact ⟨l, ext_cell Mwf C hl⟩
-    · simp only [List.mem_cons, List.not_mem_nil, or_false] at hs; subst hs; exact ⟨lt, c_loc⟩
+    · obtain ⟨t, ht⟩ := (hsh s hs).1; exact ⟨t, ext_cell wf2 e2f ht⟩
     · intro a ha b hb nab r hr hr'
       change r ∈ owned _ a at hr
       change r ∈ reads _ b at hr'
@@ -122,7 +120,7 @@ theorem mkWeaAt_fresh {h0 h2 : Heap} {d f : Nat} (ext02 : Ext h0 h2)
       refine ⟨fun hr => ?_, fun r hr hr' => ?_⟩
       · have := rlt mb hmb _ hr; omega
       · have := rlt mb hmb _ hr'; have := (Mn r hr).1; omega
-  refine ⟨(ext02.trans (Lext.trans Mext)).trans C, Cwf, ?_, ?_, ?_, ?_⟩
+  refine ⟨(ext02.trans Mext).trans C, Cwf, ?_, ?_, ?_, ?_⟩
   · show TypedA _ _
     simp only [TypedA, Cget]; exact cty
   · rw [alloc_ref]; omega
@@ -143,11 +141,29 @@ theorem mkWeaAt_fresh {h0 h2 : Heap} {d f : Nat} (ext02 : Ext h0 h2)
     · left; rw [h1, alloc_ref]; omega
     · left; rw [h1]; simp only; omega
     · left; simp only at h1; rw [mra] at h1; have := (Mn r h1).1; omega
-    · simp only [List.mem_cons, List.not_mem_nil, or_false] at h1
-      rw [h1]; exact Lnew
+    · simp only at h1
+      exact (hsh r h1).2
     · simp only at hmb
       rw [(mem mb hmb).2.1] at h1
       exact rd mb hmb r h1
+
+theorem mkWeaAt_fresh {h0 h2 : Heap} {d f : Nat} (ext02 : Ext h0 h2)
+    (inv : Inv collFP h2 [d, f])
+    (own : ∀ mb ∈ [d, f], ∀ r ∈ owned h2 mb, h0.next ≤ r)
+    (rd : ∀ mb ∈ [d, f], ∀ r ∈ reads h2 mb, h0.next ≤ r ∨ Shareable h0 r)
+    (tags : List Nat) (md : List (Nat × OV)) (pl : Heap × Nat)
+    (Lext : Ext h2 pl.1) (Lwf : WF pl.1) (lt : List MV) (Lget : pl.1.cells pl.2 = some (.loc lt))
+    (Lnew : h0.next ≤ pl.2 ∨ Shareable h0 pl.2) :
+    Fresh anyFP h0 (mkWeaAt pl tags md d f).1 (mkWeaAt pl tags md d f).2 := by
+  have wf2 := inv.1
+  have inv' : Inv collFP pl.1 [d, f] := (ext_inv collFP inv Lext Lwf).1
+  have e := fun mb (hmb : mb ∈ [d, f]) => coll_ext wf2 Lext (inv.2.1 mb hmb)
+  refine mkComp_fresh (ext02.trans Lext) inv' (fun mb hmb r hr => own mb hmb r (by rw [← (e mb hmb).2.2.1]; exact hr))
+    (fun mb hmb r hr => rd mb hmb r (by rw [← (e mb hmb).2.1]; exact hr)) 0 tags md [pl.2] ?_
+  intro s hs
+  simp only [List.mem_cons, List.not_mem_nil, or_false] at hs
+  subst hs
+  exact ⟨⟨lt, Lget⟩, Lnew⟩
 
 /-- Assembling a Wea around two fresh, separated collections gives a fresh object. -/
 theorem mkWea_fresh {h0 h2 : Heap} {d f : Nat} (wf0 : WF h0) (ext02 : Ext h0 h2)
@@ -312,7 +328,113 @@ theorem getComp_some {h : Heap} {w : Nat} {x : Comp} (e : getComp h w = some x) 
   · cases e
 
 /-- A mutator applied to one member collection of a composite object is a local step on the composite:
-    the sibling collections, the composite's own metadata and every other object are untouched. -/
+    the sibling collections, the composite's own cell, metadata and Location and every other object are
+    untouched. -/
+theorem member_step {h h' : Heap} {w mb : Nat} {x : Comp} {m0 : Mode} {op : MOp} (wf : WF h)
+    (hk : h.cells w = some (.comp x)) (cty : CompTyped h x) (hmb : mb ∈ x.members)
+    (e : mutate m0 h mb op = .ok h') :
+    Local anyFP h h' w ∧ h'.cells w = some (.comp x) ∧
+    (∀ b ∈ x.members, b ≠ mb → obs h' b = obs h b) ∧ h'.cells x.md = h.cells x.md ∧
+    (∀ r ∈ mdRefsAt h x.md, h'.cells r = h.cells r) ∧ (∀ s ∈ x.shared, h'.cells s = h.cells s) ∧
+    Local collFP h h' mb ∧ CompTyped h' x := by
+  obtain ⟨⟨m, hm, hn⟩, hsh, hmem, hsep, hmd⟩ := cty
+  have L := mutate_local wf (hmem mb hmb) e
+  have mra : mdRefsAt h x.md = mdRefs m := by simp [mdRefsAt, hm]
+  -- what is outside the member's own cells is unchanged
+  have keep : ∀ r, r < h.next → r ∉ owned h mb → h'.cells r = h.cells r := L.frame
+  have k_w : h'.cells w = some (.comp x) := by
+    rw [keep w (lt_next_of_some wf hk) (fun ho => owned_not_comp (hmem mb hmb) ho x hk)]; exact hk
+  have k_md0 : h'.cells x.md = h.cells x.md :=
+    keep x.md (lt_next_of_some wf hm) (fun ho => (hmd mb hmb).1 (owned_sub_reads _ ho))
+  have k_md : h'.cells x.md = some (.md m) := by rw [k_md0]; exact hm
+  have k_n : ∀ r ∈ mdRefs m, h'.cells r = h.cells r := by
+    intro r hr
+    obtain ⟨l, hl⟩ := hn r hr
+    exact keep r (lt_next_of_some wf hl)
+      (fun ho => (hmd mb hmb).2 r (by rw [mra]; exact hr) (owned_sub_reads _ ho))
+  have k_s : ∀ s ∈ x.shared, h'.cells s = h.cells s := by
+    intro s hs
+    obtain ⟨t, ht⟩ := hsh s hs
+    exact keep s (lt_next_of_some wf ht)
+      (fun ho => owned_kind (hmem mb hmb) s ho (Or.inr (Or.inr ⟨t, ht⟩)))
+  have mra' : mdRefsAt h' x.md = mdRefs m := by simp [mdRefsAt, k_md]
+  -- the sibling collections
+  have sib : ∀ b ∈ x.members, b ≠ mb → obs h' b = obs h b ∧ reads h' b = reads h b ∧
+      owned h' b = owned h b ∧ Typed h' b := by
+    intro b hb ne
+    refine obs_congr (hmem b hb) fun r hr => ?_
+    exact keep r (reads_lt wf (hmem b hb) r hr) (fun ho => hsep mb hmb b hb (Ne.symm ne) r ho hr)
+  have invm := (local_inv collFP ⟨wf, hmem, hsep⟩ hmb L).1
+  have cty' : CompTyped h' x := by
+    refine ⟨⟨m, k_md, fun r hr => ?_⟩, fun s hs => ?_, invm.2.1, invm.2.2, fun b hb => ?_⟩
+    · obtain ⟨l, hl⟩ := hn r hr; exact ⟨l, by rw [k_n r hr]; exact hl⟩
+    · obtain ⟨t, ht⟩ := hsh s hs; exact ⟨t, by rw [k_s s hs]; exact ht⟩
+    · rw [mra']
+      by_cases eb : b = mb
+      · subst eb
+        refine ⟨fun hr => ?_, fun r hr hr' => ?_⟩
+        · rcases L.reads_sub _ hr with h1 | h1
+          · exact (hmd b hb).1 h1
+          · have := lt_next_of_some wf hm; omega
+        · rcases L.reads_sub _ hr' with h1 | h1
+          · exact (hmd b hb).2 r (by rw [mra]; exact hr) h1
+          · obtain ⟨l, hl⟩ := hn r hr
+            have := lt_next_of_some wf hl; omega
+      · rw [(sib b hb eb).2.1]
+        have := hmd b hb
+        rw [mra] at this
+        exact this
+  have A : readsA h w = compReads h w x ∧ ownedA h w = compOwned h w x := by
+    simp [readsA, ownedA, hk]
+  have A' : readsA h' w = compReads h' w x ∧ ownedA h' w = compOwned h' w x := by
+    simp [readsA, ownedA, k_w]
+  refine ⟨⟨L.wf, ?_, ?_, ?_, ?_⟩, k_w, fun b hb ne => (sib b hb ne).1, k_md0,
+    fun r hr => k_n r (by rw [← mra]; exact hr), k_s, L, cty'⟩
+  · intro r hr ho
+    apply keep r hr
+    intro ho'
+    apply ho
+    change r ∈ ownedA h w
+    rw [A.2]
+    exact mem_compOwned.2 (Or.inr (Or.inr (Or.inr ⟨mb, hmb, ho'⟩)))
+  · show TypedA h' w
+    simp only [TypedA, k_w]; exact cty'
+  · intro r hr
+    change r ∈ ownedA h' w at hr
+    rw [A'.2] at hr
+    show r ∈ ownedA h w ∨ h.next ≤ r
+    rw [A.2]
+    rcases mem_compOwned.1 hr with h1 | h1 | h1 | ⟨b, hb, h1⟩
+    · exact Or.inl (mem_compOwned.2 (Or.inl h1))
+    · exact Or.inl (mem_compOwned.2 (Or.inr (Or.inl h1)))
+    · rw [mra'] at h1
+      exact Or.inl (mem_compOwned.2 (Or.inr (Or.inr (Or.inl (by rw [mra]; exact h1)))))
+    · by_cases eb : b = mb
+      · subst eb
+        rcases L.owned_sub r h1 with h2 | h2
+        · exact Or.inl (mem_compOwned.2 (Or.inr (Or.inr (Or.inr ⟨b, hb, h2⟩))))
+        · exact Or.inr h2
+      · rw [(sib b hb eb).2.2.1] at h1
+        exact Or.inl (mem_compOwned.2 (Or.inr (Or.inr (Or.inr ⟨b, hb, h1⟩))))
+  · intro r hr
+    change r ∈ readsA h' w at hr
+    rw [A'.1] at hr
+    show r ∈ readsA h w ∨ h.next ≤ r
+    rw [A.1]
+    rcases mem_compReads.1 hr with h1 | h1 | h1 | h1 | ⟨b, hb, h1⟩
+    · exact Or.inl (mem_compReads.2 (Or.inl h1))
+    · exact Or.inl (mem_compReads.2 (Or.inr (Or.inl h1)))
+    · rw [mra'] at h1
+      exact Or.inl (mem_compReads.2 (Or.inr (Or.inr (Or.inl (by rw [mra]; exact h1)))))
+    · exact Or.inl (mem_compReads.2 (Or.inr (Or.inr (Or.inr (Or.inl h1)))))
+    · by_cases eb : b = mb
+      · subst eb
+        rcases L.reads_sub r h1 with h2 | h2
+        · exact Or.inl (mem_compReads.2 (Or.inr (Or.inr (Or.inr (Or.inr ⟨b, hb, h2⟩)))))
+        · exact Or.inr h2
+      · rw [(sib b hb eb).2.1] at h1
+        exact Or.inl (mem_compReads.2 (Or.inr (Or.inr (Or.inr (Or.inr ⟨b, hb, h1⟩)))))
+
 theorem compMember_local {h h' : Heap} {w i : Nat} {op : MOp} (wf : WF h) (ty : TypedA h w)
     (e : compMember h w i op = .ok h') : Local anyFP h h' w := by
   unfold compMember at e
@@ -321,103 +443,8 @@ theorem compMember_local {h h' : Heap} {w i : Nat} {op : MOp} (wf : WF h) (ty : 
     have hk := getComp_some hx
     split at e
     · rename_i mb hmb'
-      have hmb : mb ∈ x.members := List.mem_of_getElem? hmb'
       have cty : CompTyped h x := by simpa only [TypedA, hk] using ty
-      obtain ⟨⟨m, hm, hn⟩, hsh, hmem, hsep, hmd⟩ := cty
-      have L := mutate_local wf (hmem mb hmb) e
-      have mra : mdRefsAt h x.md = mdRefs m := by simp [mdRefsAt, hm]
-      -- what is outside the member's own cells is unchanged
-      have keep : ∀ r, r < h.next → r ∉ owned h mb → h'.cells r = h.cells r := L.frame
-      have k_w : h'.cells w = some (.comp x) := by
-        rw [keep w (lt_next_of_some wf hk) (fun ho => owned_not_comp (hmem mb hmb) ho x hk)]; exact hk
-      have k_md : h'.cells x.md = some (.md m) := by
-        rw [keep x.md (lt_next_of_some wf hm) (fun ho => (hmd mb hmb).1 (owned_sub_reads _ ho))]; exact hm
-      have k_n : ∀ r ∈ mdRefs m, h'.cells r = h.cells r := by
-        intro r hr
-        obtain ⟨l, hl⟩ := hn r hr
-        exact keep r (lt_next_of_some wf hl)
-          (fun ho => (hmd mb hmb).2 r (by rw [mra]; exact hr) (owned_sub_reads _ ho))
-      have k_s : ∀ s ∈ x.shared, h'.cells s = h.cells s := by
-        intro s hs
-        obtain ⟨t, ht⟩ := hsh s hs
-        exact keep s (lt_next_of_some wf ht)
-          (fun ho => owned_kind (hmem mb hmb) s ho (Or.inr (Or.inr ⟨t, ht⟩)))
-      have mra' : mdRefsAt h' x.md = mdRefs m := by simp [mdRefsAt, k_md]
-      -- the sibling collections
-      have sib : ∀ b ∈ x.members, b ≠ mb → obs h' b = obs h b ∧ reads h' b = reads h b ∧
-          owned h' b = owned h b ∧ Typed h' b := by
-        intro b hb ne
-        refine obs_congr (hmem b hb) fun r hr => ?_
-        exact keep r (reads_lt wf (hmem b hb) r hr) (fun ho => hsep mb hmb b hb (Ne.symm ne) r ho hr)
-      have invm := (local_inv collFP ⟨wf, hmem, hsep⟩ hmb L).1
-      have cty' : CompTyped h' x := by
-        refine ⟨⟨m, k_md, fun r hr => ?_⟩, fun s hs => ?_, invm.2.1, invm.2.2, fun b hb => ?_⟩
-        · obtain ⟨l, hl⟩ := hn r hr; exact ⟨l, by rw [k_n r hr]; exact hl⟩
-        · obtain ⟨t, ht⟩ := hsh s hs; exact ⟨t, by rw [k_s s hs]; exact ht⟩
-        · rw [mra']
-          by_cases eb : b = mb
-          · subst eb
-            refine ⟨fun hr => ?_, fun r hr hr' => ?_⟩
-            · rcases L.reads_sub _ hr with h1 | h1
-              · exact (hmd b hb).1 h1
-              · have := lt_next_of_some wf hm; omega
-            · rcases L.reads_sub _ hr' with h1 | h1
-              · exact (hmd b hb).2 r (by rw [mra]; exact hr) h1
-              · obtain ⟨l, hl⟩ := hn r hr
-                have := lt_next_of_some wf hl; omega
-          · rw [(sib b hb eb).2.1]
-            have := hmd b hb
-            rw [mra] at this
-            exact this
-      have A : readsA h w = compReads h w x ∧ ownedA h w = compOwned h w x := by
-        simp [readsA, ownedA, hk]
-      have A' : readsA h' w = compReads h' w x ∧ ownedA h' w = compOwned h' w x := by
-        simp [readsA, ownedA, k_w]
-      refine ⟨L.wf, ?_, ?_, ?_, ?_⟩
-      · intro r hr ho
-        apply keep r hr
-        intro ho'
-        apply ho
-        change r ∈ ownedA h w
-        rw [A.2]
-        exact mem_compOwned.2 (Or.inr (Or.inr (Or.inr ⟨mb, hmb, ho'⟩)))
-      · show TypedA h' w
-        simp only [TypedA, k_w]; exact cty'
-      · intro r hr
-        change r ∈ ownedA h' w at hr
-        rw [A'.2] at hr
-        show r ∈ ownedA h w ∨ h.next ≤ r
-        rw [A.2]
-        rcases mem_compOwned.1 hr with h1 | h1 | h1 | ⟨b, hb, h1⟩
-        · exact Or.inl (mem_compOwned.2 (Or.inl h1))
-        · exact Or.inl (mem_compOwned.2 (Or.inr (Or.inl h1)))
-        · rw [mra'] at h1
-          exact Or.inl (mem_compOwned.2 (Or.inr (Or.inr (Or.inl (by rw [mra]; exact h1)))))
-        · by_cases eb : b = mb
-          · subst eb
-            rcases L.owned_sub r h1 with h2 | h2
-            · exact Or.inl (mem_compOwned.2 (Or.inr (Or.inr (Or.inr ⟨b, hb, h2⟩))))
-            · exact Or.inr h2
-          · rw [(sib b hb eb).2.2.1] at h1
-            exact Or.inl (mem_compOwned.2 (Or.inr (Or.inr (Or.inr ⟨b, hb, h1⟩))))
-      · intro r hr
-        change r ∈ readsA h' w at hr
-        rw [A'.1] at hr
-        show r ∈ readsA h w ∨ h.next ≤ r
-        rw [A.1]
-        rcases mem_compReads.1 hr with h1 | h1 | h1 | h1 | ⟨b, hb, h1⟩
-        · exact Or.inl (mem_compReads.2 (Or.inl h1))
-        · exact Or.inl (mem_compReads.2 (Or.inr (Or.inl h1)))
-        · rw [mra'] at h1
-          exact Or.inl (mem_compReads.2 (Or.inr (Or.inr (Or.inl (by rw [mra]; exact h1)))))
-        · exact Or.inl (mem_compReads.2 (Or.inr (Or.inr (Or.inr (Or.inl h1)))))
-        · by_cases eb : b = mb
-          · subst eb
-            rcases L.reads_sub r h1 with h2 | h2
-            · exact Or.inl (mem_compReads.2 (Or.inr (Or.inr (Or.inr (Or.inr ⟨b, hb, h2⟩)))))
-            · exact Or.inr h2
-          · rw [(sib b hb eb).2.1] at h1
-            exact Or.inl (mem_compReads.2 (Or.inr (Or.inr (Or.inr (Or.inr ⟨b, hb, h1⟩)))))
+      exact (member_step wf hk cty (List.mem_of_getElem? hmb') e).1
     · cases e
   · cases e
 
